@@ -387,16 +387,27 @@ func runC16(c *Ctx, idx int64) {
 	st := c.State.(*c16State)
 	r := c.RNG(idx, 0)
 	nf := r.Range(1, 3)
-	w := genWorkspace(r, st.bad, WSOpt{Files: nf, Entries: [2]int{3, 8}, Shape: "random", LF: true})
-	w.Root = r.Bool()
+	// sometimes the root journal on disk has no include directives yet: the editor's text adds them,
+	// and with them a file that includes another one (main -> a -> b)
+	dynInc := nf == 3 && r.Chance(1, 4)
+	shape := "random"
+	if dynInc {
+		shape = "chain"
+	}
+	w := genWorkspace(r, st.bad, WSOpt{Files: nf, Entries: [2]int{3, 8}, Shape: shape, LF: true})
+	w.Root = r.Bool() || dynInc
 	dir := filepath.Join(c.Dir, fmt.Sprintf("w%d", idx), "ws")
 	os.MkdirAll(dir, 0o755)
 	defer os.RemoveAll(filepath.Dir(dir))
 	f := r.Intn(nf)
 	// sometimes an included file does not exist yet when the server starts and is created in the editor
 	late := -1
-	if w.Root && nf >= 2 && r.Chance(1, 3) {
+	if w.Root && nf >= 2 && r.Chance(1, 3) && !dynInc {
 		late = 1 + r.Intn(nf-1)
+	}
+	if dynInc {
+		f = 0
+		c.Count("includes_added_by_the_editor", 1)
 	}
 	for i, n := range w.Names {
 		if i == late {
@@ -404,7 +415,17 @@ func runC16(c *Ctx, idx int64) {
 		}
 		pth := filepath.Join(dir, n)
 		os.MkdirAll(filepath.Dir(pth), 0o755)
-		os.WriteFile(pth, []byte(w.Texts[i]), 0o644)
+		text := w.Texts[i]
+		if dynInc && i == 0 {
+			var keep []string
+			for _, l := range strings.Split(text, "\n") {
+				if !strings.HasPrefix(l, "include ") {
+					keep = append(keep, l)
+				}
+			}
+			text = strings.Join(keep, "\n")
+		}
+		os.WriteFile(pth, []byte(text), 0o644)
 	}
 	lateSaved := r.Bool()
 	maxes := []int{1, 2, 3, 5, 8, 13, 50, 200}
@@ -414,7 +435,7 @@ func runC16(c *Ctx, idx int64) {
 	sb := NewSession(dir, SessOpt{Root: w.Root, InitOptions: cf.opts(cf.MaxB)})
 	sa.Drain()
 	uri := w.URI(sa, f)
-	openOthers := r.Chance(1, 3)
+	openOthers := r.Chance(1, 3) && !dynInc
 	sb.Drain()
 	if late >= 0 {
 		c.Count("late_created_files", 1)
@@ -457,6 +478,9 @@ func runC16(c *Ctx, idx int64) {
 		return cl
 	}
 	base := map[string]any{"workspace": w.String(), "workspace_root": w.Root, "document": w.Names[f], "config": cf}
+	if dynInc {
+		base["root_on_disk_has_no_include_directives"] = true
+	}
 	if late >= 0 {
 		base["created_after_start"] = map[string]any{"file": w.Names[late], "saved": lateSaved}
 	}
